@@ -56,6 +56,9 @@ func runCase(rec vlib.Recorder, sc scenario) caseResult {
 	l := layoutFor(sc.Kernel)
 	host := hostModel(sc.Kernel, d)
 	res.earlyExit = barriersSkippedByExit(host)
+	if res.earlyExit {
+		rec.Count("early_exit_cases", 1)
+	}
 
 	// ---------------- timing compute unit
 	jt := &judge{rec: rec, sc: sc, mode: "timing", seen: map[string]bool{}, bk: bk}
